@@ -56,12 +56,13 @@ def d18_behaviour():
 
 
 def mc(ctx, tag, waiters, quanta, fis, bursts, backlog, sizes, maxtime, mode="before", capf=1, relax=False,
-       prompt=True, history=False, own_bucket=False, invs="TypeOK UpperVQ NotStarved", expect_violation=False, workers=2, timeout=1500):
+       prompt=True, history=False, own_bucket=False, check_then_take=False, closing_skips=False, invs="TypeOK UpperVQ NotStarved", expect_violation=False, workers=2, timeout=1500):
     return lib.run_tlc(ctx, "TokenBucket", "TokenBucket_mc.cfg",
                        {"WAITERS": waiters, "QUANTA": quanta, "FIS": fis, "BURSTS": bursts, "BACKLOG": backlog,
                         "SIZES": sizes, "MAXTIME": maxtime, "MODE": mode, "CAPFACTOR": capf,
                         "RELAX": "TRUE" if relax else "FALSE", "PROMPT": "TRUE" if prompt else "FALSE",
-                        "HISTORY": "TRUE" if history else "FALSE", "OWNBUCKET": "TRUE" if own_bucket else "FALSE", "INVS": invs},
+                        "HISTORY": "TRUE" if history else "FALSE", "OWNBUCKET": "TRUE" if own_bucket else "FALSE", "CHECKTHENTAKE": "TRUE" if check_then_take else "FALSE",
+                        "CLOSINGSKIPS": "TRUE" if closing_skips else "FALSE", "INVS": invs},
                        tag=tag, expect_violation=expect_violation, workers=workers, timeout=timeout)
 
 
@@ -107,6 +108,12 @@ def run(ctx):
         # the "one bucket per user" assumption: a bucket per session / per user record lets the user have a multiple
         "neg_bucket_per_waiter": pool.submit(mc, ctx, "neg_bucket_per_waiter", W2, "{1, 2}", "{1, 2}", "{3, 4}", "{0, 1}", "{1, 2, 3}", 8,
                                              own_bucket=True, **neg_args),
+        # the limiter's critical section: asking Available() and taking in a second step lets racing senders all proceed
+        "neg_check_then_take": pool.submit(mc, ctx, "neg_check_then_take", W2, "{1, 2}", "{1, 2}", "{3, 4}", "{0, 1}", "{1, 2, 3}", 8,
+                                           check_then_take=True, **neg_args),
+        # every frame that leaves takes tokens, also the closing notice / the rest of a write on a session being closed
+        "neg_closing_skips_take": pool.submit(mc, ctx, "neg_closing_skips_take", W2, "{1, 2}", "{1, 2}", "{3, 4}", "{0, 1}", "{1, 2, 3}", 8,
+                                              closing_skips=True, **neg_args),
         # documents the virtual-clock assumption: a sleeper that wakes late bunches its message with the next ones
         "neg_late_wakeup": pool.submit(mc, ctx, "neg_late_wakeup", W2, "{1, 2}", "{1, 2}", "{3}", "{0}", "{1, 2, 3}", 6, prompt=False, **neg_args),
     }
